@@ -72,6 +72,8 @@ def cyclic_models():
     yield "loop-with-constants-beside-it", build({"a": ("input", []), "one": ("1", []), "zero": ("0", []), "g": ("nand", ["a", "h", "one"]), "h": ("or", ["g", "zero"]), "k": ("and", ["one", "a"]),
                                                   "o": ("xor", ["h", "k"])}, outputs=["o", "one"])
     yield "hold-loops", build({"en": ("input", []), "d": ("input", []), "m": ("or", ["m_hold", "d"]), "m_hold": ("and", ["en", "m"]), "n": ("and", ["n_hold", "d"]), "n_hold": ("or", ["en", "n"])}, outputs=["m", "n"])
+    # inputs whose names begin like the copies the transform makes (`c1_...`; tx.miter produces such names) without clashing with one
+    yield "input-named-like-a-copy-prefix", build({"a": ("input", []), "c1_en": ("input", []), "c0x": ("input", []), "q": ("nand", ["a", "qn"]), "qn": ("nand", ["q", "c1_en", "c0x"])}, outputs=["q"])
     yield "acyclic-control", build({"a": ("input", []), "b": ("input", []), "g": ("nand", ["a", "b"]), "h": ("nor", ["g", "a"])}, outputs=["h"])
 
 
